@@ -133,6 +133,13 @@ CHECKS = {
          "decoding exactly the consumed bytes, the consumed bytes followed by each tail of the menu, and the maxlen window all yield the same instruction (bytes, mnemonic, operands, type, misc).",
     note="Same enumerator and bounds as C17. Known findings (dwarf/wasm/msp430 LEB/immediate tails accepted when missing) are listed in KNOWN_FINDINGS.json keyed by (ISA, mode, relation, setup function).",
     design="DESIGN.md section 3, C05"),
+ "C06": dict(
+    category="model_checking",
+    technique="bounded exhaustive enumeration of (encoding, start state) vectors: RISC-V base opcodes encoded from the manual against a reference interpreter; x86-64/IA-32 integer encodings executed natively on this CPU (native/x86run) and by amoco from the same concrete state",
+    text="RISC-V: every RV32I/RV64I base opcode with rd/rs1/rs2 over {x0,x1,x2}, boundary immediates, all shift amounts, all load/store sizes, branches, from all pairs of a 12-value boundary set and 4 pc values: destination registers, pc and stored bytes versus an interpreter written from the manual. "
+         "x86: ~2400 encodings of the user-mode integer subset (from amoco's spec enumeration plus explicit shift/rotate count sweeps, SETcc/CMOVcc over all conditions) x 20-34 register/flag states: all 16 GPRs, the architecturally defined status flags and the touched scratch memory versus the processor.",
+    note="The x86 oracle is this CPU; undefined flags/destinations are masked per Intel SDM; vectors on which the CPU faults are skipped; IA-32 is compared for encodings whose meaning is mode independent. Non-constant amoco results are accepted. ~110 known findings (e.g. SF of logic ops, REP with count 0, CDQ, PUSH imm, RISC-V signed compares/LUI/JALR).",
+    design="DESIGN.md section 3, C06"),
  "C07": dict(
     category="model_checking",
     technique="complete spec-driven enumeration of 15-byte x86/x64 candidates (every shipped spec, Mod x RM, SIB, prefix and branch menus) compared with a vendored reference table produced by binutils objdump and LLVM llvm-objdump",
